@@ -1,8 +1,8 @@
 (** C20, round 6: the reader on a file on disk is a function of the bytes;
     the alignment of line breaks and read windows. *)
-From Coq Require Import ZArith NArith List Bool Lia.
-From AGH Require Import Base.Run Model.QLogFile Model.QLogBytes Model.QLogDisk
-  Proofs.QLogFile Proofs.QLogBytes.
+From Coq Require Import ZArith NArith List Bool Lia String.
+From AGH Require Import Base.Run Model.QLogFile Model.QLog Model.QLogCodec Model.QLogBytes Model.QLogDisk
+  Proofs.QLogFile Proofs.QLogCodec Proofs.QLogCodecLoc Proofs.QLogBytes Proofs.QLogStamp.
 Import ListNotations.
 Local Open Scope Z_scope.
 
@@ -113,3 +113,57 @@ Proof.
   split; [vm_compute; reflexivity|].
   eexists. split; [vm_compute; reflexivity|]. split; [reflexivity|]. intros H; discriminate H.
 Qed.
+
+(** * Round 7: the T field at any offset of the line
+
+    [read_qlog_ts] looks for the FIRST occurrence of the marker in the whole
+    line: there is no bound on where it may stand.  Lines covered: a one-line
+    JSON object whose members before T are string members under other keys
+    (keys free of quotes), with ANY values of ANY length, written with JSON's
+    escaping of quotes; T holds a time text. *)
+Definition line_T_behind (kvs : list (bytes * bytes)) (t : bytes) (post : list bytes) : bytes :=
+  obj (map (fun kv => 34%N :: fst kv ++ 34%N :: 58%N :: quote (snd kv)) kvs ++ fld "T"%string (quote t) :: post).
+
+Theorem stamp_field_at_any_offset (o : bytes -> Z) kvs t post :
+  Forall (fun kv => forallb no34 (fst kv) = true /\ fst kv <> kT) kvs ->
+  time_text t = true -> t <> [] ->
+  read_qlog_ts o (line_T_behind kvs t post) = o t.
+Proof.
+  intros Hk Ht Hne. unfold read_qlog_ts, line_T_behind.
+  destruct (located_T_behind_strings kvs post t Hk) as [rest H].
+  rewrite (enc_str_time _ Ht), (until_quote_no34 _ _ (time_text_no34 _ Ht)) in H.
+  injection H as H. rewrite <- H. destruct t; [congruence|reflexivity].
+Qed.
+
+(** ... in particular behind a value of [n] bytes, for every [n]: the marker
+    then stands at byte n + 9 of the line. *)
+Definition pad_line (n : nat) (t : bytes) : bytes :=
+  line_T_behind [([81; 72]%N, repeat 120%N n)] t [].
+
+Corollary stamp_field_behind_n_bytes (o : bytes -> Z) n t :
+  time_text t = true -> t <> [] -> read_qlog_ts o (pad_line n t) = o t.
+Proof.
+  intros Ht Hne. apply stamp_field_at_any_offset; auto.
+  constructor; [|constructor]. split; [reflexivity|discriminate].
+Qed.
+
+(** A reader that looks only at the first 512 bytes of the line (wave-7
+    change M) is refuted: T behind a host of 590 bytes stands at byte 599; the
+    line is one the theorem above covers and far shorter than the entry limit;
+    the code reads the stamp, the variant reads 0, which makes seekTS abort
+    with "record has empty timestamp" ([EmptyStamp]: none of found / not found
+    / too early / too late). *)
+Definition ex_t : bytes := B "2024-03-01T12:00:00.5Z".
+
+Theorem bounded_prefix_refuted :
+  let line := pad_line 590 ex_t in
+  blen line = 628 /\ nlfree line /\
+  takeZ (dropZ line 599) 5 = pT /\
+  read_qlog_ts ex_o line = 1709294400500000000 /\
+  read_qlog_ts_prefix 512 ex_o line = 0 /\
+  (* short lines are not affected *)
+  read_qlog_ts_prefix 512 ex_o (pad_line 100 ex_t) = 1709294400500000000 /\
+  (* the seek over a file holding that line *)
+  b_seek_ts ex_o 16384 (flat [line]) 1709294400500000000 = Found 628 0 /\
+  b_seek_ts (fun v => 0) 16384 (flat [line]) 1709294400500000000 = EmptyStamp.
+Proof. vm_compute. repeat split; reflexivity. Qed.
